@@ -24,17 +24,14 @@ func mPhiNamed(name string) VMatch {
 	}
 }
 
-// runningMax: stored/merged value `q` is max(prev, cand): q = phi[P1: prev, P2: cand] where P1 ends
-// in `if cand > prev` (any equivalent comparison) with P2 its true successor.
-func isRunningMaxPhi(q *ssa.Phi, cand VMatch) (prev ssa.Value, ok bool) {
-	if len(q.Edges) != 2 {
-		return nil, false
-	}
+// runningMaxPair: the phi q merges, among its edges, a pair (prev from P1, cand from P2) where P1
+// ends in `if cand > prev` (any equivalent comparison) and P2 is its true successor reached only
+// from P1 — i.e. q = max(prev, cand) on those two edges. The remaining edges are returned.
+func runningMaxPair(q *ssa.Phi, cand VMatch) (prev ssa.Value, rest []ssa.Value, ok bool) {
 	blk := q.Block()
-	for i := 0; i < 2; i++ {
-		p1, p2 := blk.Preds[i], blk.Preds[1-i]
+	for i, p1 := range blk.Preds {
 		iff, isIf := p1.Instrs[len(p1.Instrs)-1].(*ssa.If)
-		if !isIf || len(p2.Preds) != 1 || p2.Preds[0] != p1 || p1.Succs[0] != p2 {
+		if !isIf {
 			continue
 		}
 		b, isB := iff.Cond.(*ssa.BinOp)
@@ -50,11 +47,26 @@ func isRunningMaxPhi(q *ssa.Phi, cand VMatch) (prev ssa.Value, ok bool) {
 		default:
 			continue
 		}
-		if q.Edges[1-i] == big && q.Edges[i] == small && cand(big) {
-			return small, true
+		for j, p2 := range blk.Preds {
+			if i == j || len(p2.Preds) != 1 || p2.Preds[0] != p1 || p1.Succs[0] != p2 || p1.Succs[1] != blk {
+				continue
+			}
+			if q.Edges[j] == big && q.Edges[i] == small && cand(big) {
+				for k, e := range q.Edges {
+					if k != i && k != j {
+						rest = append(rest, e)
+					}
+				}
+				return small, rest, true
+			}
 		}
 	}
-	return nil, false
+	return nil, nil, false
+}
+
+func isRunningMaxPhi(q *ssa.Phi, cand VMatch) (ssa.Value, bool) {
+	prev, rest, ok := runningMaxPair(q, cand)
+	return prev, ok && len(rest) == 0
 }
 
 func runC19(p *Prog, r *Report) {
@@ -206,7 +218,11 @@ func runC19(p *Prog, r *Report) {
 				okT := tphi != nil
 				why := "per-table maximum is not a loop-carried value"
 				if tphi != nil {
-					for _, e := range tphi.Edges {
+					edges := tphi.Edges
+					if prev, rest, okd := runningMaxPair(tphi, seqOfKey); okd && prev == ssa.Value(tphi) {
+						edges = rest // the maximum is folded directly into the loop-carried value
+					}
+					for _, e := range edges {
 						if k, isC := constUint(e); isC && k == 0 {
 							continue
 						}
